@@ -25,6 +25,7 @@ type Profile struct {
 	IneligibleProb     float64
 	MultiNLRIProb      float64
 	RichAttrProb       float64
+	MixedUpdateProb    float64 // an announcing UPDATE also withdraws routes
 	CheckpointEvery    int
 	TailUS             int64
 	BigGapProb         float64
@@ -49,6 +50,7 @@ func DefaultProfile() Profile {
 		FragmentProb:    0.1,
 		MultiNLRIProb:   0.3,
 		RichAttrProb:    0.4,
+		MixedUpdateProb: 0.12,
 		CheckpointEvery: 6,
 		TailUS:          2_000_000,
 		BigGapProb:      0.05,
@@ -299,6 +301,17 @@ func (g *gen) genAttrs(pi int) *AttrSpec {
 		}
 	}
 	if r.Chance(g.prof.RichAttrProb) {
+		if r.Chance(0.15) {
+			// an aggregate: an AS_SET in the path - in front when the neighbour adds no AS of its own
+			// (iBGP), so that whoever prepends next has to open a new AS_SEQUENCE
+			set := Segment{Type: 1, ASNs: []uint32{uint32(64700 + r.Intn(5)), uint32(64710 + r.Intn(5))}}
+			if pc.AS == g.plan.DUT.LocalAS {
+				a.ASPath = append([]Segment{set}, a.ASPath...)
+			} else {
+				seq := a.ASPath[0].ASNs
+				a.ASPath = []Segment{{Type: 2, ASNs: seq[:1]}, set, {Type: 2, ASNs: seq[1:]}}
+			}
+		}
 		if r.Chance(0.5) {
 			a.MED = u32p(uint32(r.Intn(3) * 10))
 		}
@@ -415,6 +428,31 @@ func (g *gen) stepAnnounce(pi int) {
 		g.makeIneligible(pi, &st)
 	}
 	st.Chunks, st.ChunkGapUS = g.chunks(0)
+	if r.Chance(g.prof.MixedUpdateProb) {
+		// the same UPDATE also withdraws one or two routes of this family announced earlier
+		// (withdrawn-routes field next to NLRI, or MP_UNREACH_NLRI next to MP_REACH_NLRI)
+		var keys []viewKey
+		for k := range g.announced[pi] {
+			keys = append(keys, k)
+		}
+		sortViewKeys(keys)
+		for _, k := range keys {
+			inPf := false
+			for _, p := range pf {
+				if p == k.Pfx {
+					inPf = true
+				}
+			}
+			if inPf || k.Pfx.V6 != v6 || len(st.Wd) >= 2 || !r.Chance(0.6) {
+				continue
+			}
+			st.Wd = append(st.Wd, k.Pfx)
+			if pc.AddPathRX {
+				st.WdIDs = append(st.WdIDs, k.PathID)
+			}
+			delete(g.announced[pi], k)
+		}
+	}
 	for i, p := range pf {
 		id := uint32(0)
 		if i < len(st.PathIDs) {
